@@ -12,6 +12,8 @@ for k, x in r.items():
     if not det: d["miss"] += 1; d["names_miss"].append(x["name"])
     elif x.get("failing_input_found"): d["fi"] += 1
     else: d["corr"] += 1; d["names_corr"].append(x["name"])
+import sys, io
+_buf = io.StringIO(); _out = sys.stdout; sys.stdout = _buf
 print("| property | seeded changes | detected with a failing input | detected by a broken correspondence / proof obligation only | missed |")
 print("|---|---|---|---|---|")
 tot = [0, 0, 0, 0]
@@ -21,3 +23,12 @@ for pid in sorted(rows):
                                          d["miss"], (" (" + ", ".join(d["names_miss"]) + ")") if d["names_miss"] else ""))
     tot = [tot[0] + d["n"], tot[1] + d["fi"], tot[2] + d["corr"], tot[3] + d["miss"]]
 print("| total | %d | %d | %d | %d |" % tuple(tot))
+
+sys.stdout = _out
+table = _buf.getvalue()
+print(table, end="")
+if "--design" in sys.argv:
+    dp = os.path.join(ROOT, "DESIGN.md")
+    d = open(dp).read()
+    a, b = d.index("<!-- SEED-SUMMARY-BEGIN -->") + len("<!-- SEED-SUMMARY-BEGIN -->"), d.index("<!-- SEED-SUMMARY-END -->")
+    open(dp, "w").write(d[:a] + "\n" + table + d[b:])
